@@ -19,7 +19,7 @@ PLAN = dict(
     level_note=NOTE_BASE,
     runs=[
         dict(name="scaling", run="^(TestScaling|TestKnownF12|TestStatusSweep|TestCorpus)$", timeout=(400, 1800), mem_gb=12),
-        dict(name="sweep", run="^TestSlotSweep$", timeout=(400, 1800), mem_gb=12),
+        dict(name="sweep", run="^(TestSlotSweep|TestVariantsSweep)$", timeout=(400, 1800), mem_gb=12),
         dict(name="parsers", run="^TestPropParsers$", checks=(2500, 50000), shards=(4, 16), timeout=(400, 2400), mem_gb=12, gomaxprocs=2),
         dict(name="fuzz-bundle", fuzz="FuzzBundleRead", fuzztime=120, timeout=(0, 300)),
         dict(name="fuzz-sxg", fuzz="FuzzReadExchange", fuzztime=90, timeout=(0, 300)),
